@@ -24,6 +24,7 @@ const c07Marker = `# client groups
 10.0.0.0,10.255.255.255,g2
 2001:db8::,2001:db8::ffff,g1
 2001:db8:1::,2001:db8:1::ff,g3
+127.24.0.0,127.24.255.255,g    # a label that another one ("g1") continues
 `
 
 func c07Group(a netip.Addr) string {
@@ -33,7 +34,7 @@ func c07Group(a netip.Addr) string {
 	a = a.Unmap()
 	for _, r := range []struct{ s, e, l string }{
 		{"127.20.0.0", "127.20.255.255", "g1"}, {"127.21.0.0", "127.21.0.255", "g2"}, {"127.22.0.5", "127.22.0.5", "g1"},
-		{"10.0.0.0", "10.255.255.255", "g2"}, {"2001:db8::", "2001:db8::ffff", "g1"}, {"2001:db8:1::", "2001:db8:1::ff", "g3"}} {
+		{"10.0.0.0", "10.255.255.255", "g2"}, {"2001:db8::", "2001:db8::ffff", "g1"}, {"2001:db8:1::", "2001:db8:1::ff", "g3"}, {"127.24.0.0", "127.24.255.255", "g"}} {
 		s, e := netip.MustParseAddr(r.s), netip.MustParseAddr(r.e)
 		if a.BitLen() == s.BitLen() && s.Compare(a) <= 0 && a.Compare(e) <= 0 {
 			return r.l
@@ -255,6 +256,39 @@ func TestVfC07Cache(t *testing.T) {
 			j := rapid.IntRange(0, n-2).Draw(t, "twinAt")
 			k := rapid.IntRange(j+1, n-1).Draw(t, "twinAt2")
 			if rapid.Bool().Draw(t, "shortFirst") {
+				asks[j], asks[k] = short, long
+			} else {
+				asks[j], asks[k] = long, short
+			}
+			reSplit = true
+		}
+		// ... and one in three a pair for keys that put the group label in front of the name: groups "g" and "g1", where
+		// the '1' (49) is the length of the longer name (keys that write the name's length) or of its first label (keys that
+		// do not), and the rest of the longer name spells the shorter one.
+		if n >= 4 && rapid.IntRange(0, 2).Draw(t, "frontTwins") == 0 {
+			inG := c07Client{"udp", netip.AddrFrom4([4]byte{127, 24, 0, byte(rapid.IntRange(1, 254).Draw(t, "frontHost"))})}
+			inG1 := c07Client{"udp", netip.AddrFrom4([4]byte{127, 20, 9, byte(rapid.IntRange(1, 254).Draw(t, "frontHost1"))})}
+			var long, short ask
+			if rapid.Bool().Draw(t, "frontWithNameLength") {
+				// shorter name: 48 octets on the wire (one label of 47); longer name: one label of 48 octets = those 48
+				lbl := []byte(label)
+				for len(lbl) < 47 {
+					lbl = append(lbl, 'b')
+				}
+				short = ask{name: vfkit.Name{lbl[:47]}, typ: 1, class: 1, client: inG1, burst: 1}
+				long = ask{name: vfkit.Name{short.name.WireNoRoot()}, typ: 1, class: 1, client: inG, burst: 1}
+			} else {
+				// shorter name: first label of 48 octets; longer name: first label of 49 = the octet 48 + those 48
+				lbl := []byte(label)
+				for len(lbl) < 48 {
+					lbl = append(lbl, 'b')
+				}
+				short = ask{name: vfkit.Name{lbl[:48], []byte("cache"), []byte("test")}, typ: 1, class: 1, client: inG1, burst: 1}
+				long = ask{name: vfkit.Name{append([]byte{48}, lbl[:48]...), []byte("cache"), []byte("test")}, typ: 1, class: 1, client: inG, burst: 1}
+			}
+			j := rapid.IntRange(0, n-2).Draw(t, "frontAt")
+			k := rapid.IntRange(j+1, n-1).Draw(t, "frontAt2")
+			if rapid.Bool().Draw(t, "frontShortFirst") {
 				asks[j], asks[k] = short, long
 			} else {
 				asks[j], asks[k] = long, short
